@@ -700,7 +700,7 @@ impl<'a> World<'a> {
                     }
                     if let Some(since) = self.marked_since.get(&(slot, id.clone(), k.to_string(), vv.version)) {
                         if self.now_ns >= since + grace {
-                            return Err(fail(Monitor::C06, "marked-entry-survived-gc", format!("n{slot}'s copy of {:?} (watermark {}, max {}): key {k:?} (v{}, status {}) has been held for {} ms >= grace {} ms and survived a GC pass", id, ns.last_gc_version(), ns.max_version(), vv.version, status_code(&vv.status), (self.now_ns - since) / 1_000_000, self.cfg.kv_grace_ms)).into());
+                            return Err(fail(Monitor::C06, "marked-entry-survived-gc", format!("n{slot}'s copy of {:?} (watermark {}, max {}): key {k:?} (v{}, status {}) has been held for {} ms >= grace {} ms and survived a GC pass (its own deletion instant is {:?} old)", id, ns.last_gc_version(), ns.max_version(), vv.version, status_code(&vv.status), (self.now_ns - since) / 1_000_000, self.cfg.kv_grace_ms, vv.status.time_of_start_scheduled_for_deletion().map(|t| t.elapsed()))).into());
                         }
                     }
                 }
@@ -1300,6 +1300,7 @@ impl<'a> World<'a> {
                 self.frontiers.remove(&(slot, id.clone()));
                 self.key_versions.remove(&(slot, id.clone()));
                 self.passed_delete.remove(&(slot, id.clone()));
+                self.marked_since.retain(|(s, m, _, _), _| !(*s == slot && m == id));
                 let wid = WId::from_real(id);
                 self.taints.retain(|(s, w, _, _)| !(*s == slot && *w == wid));
             }
